@@ -385,9 +385,10 @@ def run_check(name, tier):
         },
         "assumptions": chk.assumptions,
     }
-    os.makedirs(os.path.join(VERIF, "evidence"), exist_ok=True)
-    with open(os.path.join(VERIF, "evidence", prop + ".json"), "w") as f:
-        json.dump(ev, f, indent=1, sort_keys=True, default=str)
+    if not os.environ.get("VERIF_NO_EVIDENCE"):      # (soak runs from snapshots must not write evidence)
+        os.makedirs(os.path.join(VERIF, "evidence"), exist_ok=True)
+        with open(os.path.join(VERIF, "evidence", prop + ".json"), "w") as f:
+            json.dump(ev, f, indent=1, sort_keys=True, default=str)
     print("done: runs=%d nontrivial=%d violations=%d known=%s wall=%.1fs digest=%s" % (
         nres, len(nontrivial), n_viol, known_seen, wall, ev["coverage"]["batch_digest"]))
     return exit_code
